@@ -110,22 +110,25 @@ CHECKS = {
 
 # parts added after the first version of each check (appended to the level text)
 ADDED = {
-    "C01": " Also through Client.upload/download of whole files, and with server options that must not matter (block size, timeouts, non-binding limits) drawn per case.",
-    "C02": " The wire part runs two users with different bases on one server and re-logs-in on the same connection (each access must be inside the base of the user logged in when the command was sent). Part 'window': commands (CWD, CDUP, USER, MKD) sent between a transfer's 150 and its data connection must not change the location served or stored (metamorphic against the run without them).",
+    "C01": " Also through Client.upload/download of whole files, and with server options that must not matter (block size, timeouts, non-binding limits) drawn per case. Throttle configurations include a limit of exactly 0 and the per-user levels; an exception from a valid transfer is a violation.",
+    "C02": " The wire part runs two users with different bases on one server and re-logs-in on the same connection (each access must be inside the base of the user logged in when the command was sent). Part 'window': commands (CWD, CDUP, USER, MKD) sent between a transfer's 150 and its data connection must not change the location served or stored (metamorphic against the run without them). Second wire oracle: every backend access of a command concerns the location the command addresses (resolved when it arrives) or an ancestor / descendant of it - for RNTO also the location addressed by the pending RNFR; RNFR/CWD/RNTO and RNFR/RELOGIN/RNTO blocks are generated.",
     "C04": " Part 'window': the C02 window relation with permission-restricted locations - the location whose permission was checked is the one the worker uses. Part 'updown': directed histories (home below a generated table, then CDUP / 'CWD ..' / sideways CWD, PWD after each): every move is authorised by the entry governing its destination.",
     "C05": " Part 'real' runs the same walks over real loopback sockets on the stock asyncio loop, so simnet traces are validated against the implementation on a real network stack.",
     "C06": " Foreign codes are also placed on interior continuation lines (rejection demanded); part 'cmdloop' drives Client.command with generated expected/wait codes against generated reply sequences.",
     "C08": " Glob-flavoured names ('report[1]', 'st*r', 'wha?', '[!x]') get decoy siblings that a pattern reading would match; listings must contain exactly the named entry and the decoys.",
     "C10": " Session ends also by QUIT + RST and command + RST (transport.abort()), so the release path behind a failing reply write is covered. Events also put a session through a transfer state (425 for lack of a data connection, completed, aborted, cut while the worker waits) before it ends.",
-    "C11": " Histories include re-USER on a session that holds a listener, two passive commands pipelined in one segment (one listener, one port, two answers) and a four-session history in which pool priorities diverge.",
-    "C12": " Cut family 'write_then_rst' resets the connection right after a command (the reply write fails); a slow-I/O backend mode makes open()/read()/write() suspend; the thorough tier re-runs the simnet calibration (repository suite on simnet). Corpus script 'unused_data_relogin': an accepted but unused data connection meets a re-USER.",
+    "C11": " Histories include re-USER on a session that holds a listener, two passive commands pipelined in one segment (one listener, one port, two answers) and a four-session history in which pool priorities diverge. One history runs on an IPv6 listener, where PASV is refused with 503 while the session may keep the listener it opened.",
+    "C12": " Cut family 'write_then_rst' resets the connection right after a command (the reply write fails); a slow-I/O backend mode makes open()/read()/write() suspend; the thorough tier re-runs the simnet calibration (repository suite on simnet). Corpus script 'unused_data_relogin': an accepted but unused data connection meets a re-USER. Part 'accept': Server.close() n loop iterations after a client begins to connect (the client never leaves). Network mode 'throttled': speed limits low enough that transfers spend their time in throttle waits. Script 'restart' also aims restart uploads at files that do not exist.",
     "C13": " The exception type rotates over 15 types (OSError subclasses, TimeoutError, KeyError, asyncio.TimeoutError, ...); AsyncPathIO path_timeout overruns are injected; part 'pipelined' sends command batches while a fault is pending (every command still gets exactly one completion reply).",
-    "C14": " Backend delays include open()/close(); part 'backpressure' sends ABOR while the server's data writes are blocked by a client that does not read. Follow-up transfers are also run on the listener the session already has (no new EPSV) once the server has closed the aborted transfer's data connection.",
-    "C15": " Login choreographies (pending USER while another session of the user leaves, re-USER, early bird, wrong password first) and part 'relogin' (data connection opened as user A, re-login as user B, transfer on the existing connection: B's limit applies, A's never delays it).",
+    "C14": " Backend delays include open()/close(); part 'backpressure' sends ABOR while the server's data writes are blocked by a client that does not read. Follow-up transfers are also run on the listener the session already has (no new EPSV) once the server has closed the aborted transfer's data connection. Part 'double': a second ABOR 0 / 0.5 ms / 0.3 s / 0.7 s after the first, with and without a slow backend close(): both are answered, the clean-up is not cut short. Backend delays also cover the checks made before the 150; an ABOR answered before the 150 is accepted only if it was sent before the command.",
+    "C15": " Login choreographies (pending USER while another session of the user leaves, re-USER, early bird, wrong password first) and part 'relogin' (data connection opened as user A, re-login as user B, transfer on the existing connection: B's limit applies, A's never delays it). Part 'setter': a per-connection or server-wide limit switched on through the setter while sessions exist.",
+    "C07": " Entries carry generated permission bits (set-uid / set-gid / sticky with and without execute); part 'modes' is exhaustive over the 7 x 4096 (file type, permission) pairs: the mode string the server prints must be accepted by the client's parser; the listed directory itself is stat'ed and may contain an entry of its own name.",
+    "C09": " Operations 'download_here' (source '' / '.' / '/': download the working directory or the root) and 'upload_twice' (same relative destination from two working directories on one connection).",
+    "C16": " Family 'tail': the receiver never reads a file smaller than the transport's write buffer - no write ever blocks, yet after socket_timeout the worker must be finished and the data socket closed.",
     "C17": " Payload sizes are session-specific and 14 backend operations can be delayed, so facts or offsets leaking between sessions show in the bytes.",
     "C19": " The hostile-client part also counts server-wide and per-user connection slots as session resources. The 'line not dropped' rule is decided constructively: generated bytes are also decoded into a well-formed unix/windows/MLSx line whose name is known by construction; it must never be parsed as '.'/'..' unless the name lexically is one. After hostile input a fresh session lists '/' and every directory left behind, with MLSD and LIST.",
     "C03": " Part 'pipelined': three users with disjoint bases, a backend that really suspends, 2-5 lines sent in one segment (path commands, USER, PASS): the backend is never asked about a path inside the base of a user the session did not supply credentials for, none of that user's content is served, that user's subtree is unchanged.",
-    "C20": " Scenarios also: over-limit user / server (530/421 replies), error paths, clients with latin-1 / ASCII encoding and passwords they cannot encode (the third twin is skipped there, counted). Mode 'work': a logged-in password user reaches every remaining server log site (listing with a vanished entry, transfers, 425, ABOR, QUIT).",
+    "C20": " Scenarios also: over-limit user / server (530/421 replies), error paths, clients with latin-1 / ASCII encoding and passwords they cannot encode (the third twin is skipped there, counted). Mode 'work': a logged-in password user reaches every remaining server log site (listing with a vanished entry, transfers, 425, ABOR, QUIT). Mode 'overlong': a 70 000-character password sent in two pieces.",
 }
 
 NOT_YET = {}
